@@ -371,15 +371,27 @@ def step? (s : Sys) : Label → Option Sys
       match s.mbox with
       | [] =>
         if s.strongCount = 0 then
-          some { s with pc := .stopping false false false, runLive := false, ev := s.ev ++ [.stopStart false] }
+          -- the closed-mailbox arm looks at the control channel once more: a kill() that arrived after this pass
+          -- polled it (pollTerm) wins
+          if s.termSlot then
+            some { s with termSlot := false, pc := .stopping true false false, runLive := false,
+                          ev := s.ev ++ [.termConsumed, .stopStart true] }
+          else
+            some { s with pc := .stopping false false false, runLive := false, ev := s.ev ++ [.stopStart false] }
         else some { s with pc := .selRun }
       | .env mid k :: rest =>
         some { s with mbox := rest, taken := s.taken + 1, waiters := grantFirst s.waiters,
                       pc := .inHandler mid k, runLive := false, hooks := s.hooks ++ [.handler mid],
                       ev := s.ev ++ [.handlerStart mid] }
       | .stop _ :: rest =>
-        some { s with mbox := rest, taken := s.taken + 1, waiters := grantFirst s.waiters,
-                      pc := .stopping false false true, runLive := false, ev := s.ev ++ [.stopStart false] }
+        -- likewise for the stop marker: it is dequeued, then the control channel is looked at once more
+        if s.termSlot then
+          some { s with mbox := rest, taken := s.taken + 1, waiters := grantFirst s.waiters, termSlot := false,
+                        pc := .stopping true false true, runLive := false,
+                        ev := s.ev ++ [.termConsumed, .stopStart true] }
+        else
+          some { s with mbox := rest, taken := s.taken + 1, waiters := grantFirst s.waiters,
+                        pc := .stopping false false true, runLive := false, ev := s.ev ++ [.stopStart false] }
     else none
   | .pollRun =>
     if s.pc = .selRun then
